@@ -17,13 +17,13 @@ import (
 
 // Item is one decoded data item.
 type Item struct {
-	Major   int    // 0..7
-	Info    int    // additional information 0..31
-	Arg     uint64 // the argument (value, length or count)
-	HeadLen int    // bytes of the head (1,2,3,5,9)
-	Start   int    // offset of the head in the input
-	End     int    // offset just past the item
-	Str     []byte // content for major 2/3
+	Major   int     // 0..7
+	Info    int     // additional information 0..31
+	Arg     uint64  // the argument (value, length or count)
+	HeadLen int     // bytes of the head (1,2,3,5,9)
+	Start   int     // offset of the head in the input
+	End     int     // offset just past the item
+	Str     []byte  // content for major 2/3
 	Elems   []*Item // major 4: elements; major 5: k0,v0,k1,v1,…; major 6: the tagged item
 }
 
